@@ -544,6 +544,7 @@ func checkC14(c *Ctx) {
 	c.MinCount("SYM", 6)
 	ruleSymDead(c, s)
 	ruleMinLen(c, "C14")
+	ruleLECount(c)
 	_ = ssa.Function{}
 }
 
